@@ -81,6 +81,8 @@ def schedule_signature(ops):
             parts.append("A" + "".join(str(x) for x in op["ms"]))
         elif k == "restart":
             parts.append(f"r{op['m']}")
+        elif k == "fault_sweep":
+            parts.append(f"S{op['m']}!{op['kind']}")
         elif k == "overlap":
             parts.append("O" + "".join(str(x) for x in op["ms"]))
         else:
